@@ -1,4 +1,9 @@
 import Ccp.Proofs.Range
+/-!
+Helper lemmas for the harder C14 theorems: decimal strings, `split`/`join`, reading back a
+text written without blanks, the index loop of `as_compressed_str` characterised by a
+structural recursion (`emit`), and the maximal runs of an ascending list.  Core Lean only.
+-/
 namespace Ccp.Range
 open Ccp.Py
 
@@ -530,5 +535,99 @@ theorem runs_separated (s : List Nat) (hs : s.Pairwise (· < ·)) :
         · simp; omega
         · have := (List.pairwise_cons.mp ih).1 t ht
           simp at this ⊢; omega
+
+/-! ### the canonical text, as a list of parts -/
+
+/-- the parts written for one run -/
+def partsOfRun : Nat × Nat → List (Nat × Option Nat)
+  | (a, b) => if a = b then [(a, none)] else if a + 1 = b then [(a, none), (b, none)]
+              else [(a, some b)]
+
+theorem join_append (ws vs : List Str) (hw : ws ≠ []) (hv : vs ≠ []) :
+    join [','] (ws ++ vs) = join [','] ws ++ ',' :: join [','] vs := by
+  induction ws with
+  | nil => exact absurd rfl hw
+  | cons w ws ih =>
+    cases ws with
+    | nil =>
+      simp only [List.singleton_append]
+      rw [join_cons_cons _ _ _ hv]; simp [join]
+    | cons w2 ws =>
+      have := ih (by simp)
+      rw [List.cons_append, join_cons_cons [','] w (w2 :: ws ++ vs) (by simp), this,
+        join_cons_cons [','] w (w2 :: ws) (by simp)]
+      simp
+
+theorem partsOfRun_ne_nil (r : Nat × Nat) : partsOfRun r ≠ [] := by
+  obtain ⟨a, b⟩ := r
+  simp only [partsOfRun]; split
+  · simp
+  · split <;> simp
+
+theorem renderParts_partsOfRun (r : Nat × Nat) : renderParts (partsOfRun r) = renderRun r := by
+  obtain ⟨a, b⟩ := r
+  simp only [partsOfRun, renderRun, renderParts]; split
+  · simp [join, renderPart]
+  · split <;> simp [join, renderPart]
+
+theorem renderRuns_eq_renderParts (rs : List (Nat × Nat)) :
+    renderRuns rs = renderParts (rs.flatMap partsOfRun) := by
+  induction rs with
+  | nil => rfl
+  | cons r rs ih =>
+    cases rs with
+    | nil => simp [renderRuns, join, renderParts_partsOfRun]
+    | cons r2 rs =>
+      rw [renderRuns_cons, List.flatMap_cons]
+      unfold renderParts at ih ⊢
+      rw [List.map_append, join_append _ _ (by simpa using partsOfRun_ne_nil r)
+        (by simp [partsOfRun_ne_nil]), ← ih]
+      have := renderParts_partsOfRun r
+      unfold renderParts at this
+      rw [this, renderRuns_cons]
+      simp [moreRuns]
+
+theorem expand_partsOfRun (r : Nat × Nat) (h : r.1 ≤ r.2) :
+    (partsOfRun r).flatMap expandPart = upto r.1 r.2 := by
+  obtain ⟨a, b⟩ := r
+  simp only at h
+  simp only [partsOfRun]; split
+  · rename_i e; subst e; simp [expandPart, upto_self]
+  · split
+    · rename_i e; subst e
+      rw [upto_cons a (a + 1) (by omega), upto_self]; simp [expandPart]
+    · simp [expandPart]
+
+theorem flatMap_congr' {α β} (l : List α) (f g : α → List β) (h : ∀ x ∈ l, f x = g x) :
+    l.flatMap f = l.flatMap g := by
+  induction l with
+  | nil => rfl
+  | cons a as ih =>
+    simp only [List.flatMap_cons]
+    rw [h a (by simp), ih (fun x hx => h x (by simp [hx]))]
+
+theorem expand_parts_runs (s : List Nat) :
+    ((runs s).flatMap partsOfRun).flatMap expandPart = s := by
+  rw [List.flatMap_assoc]
+  have : ∀ r ∈ runs s, (partsOfRun r).flatMap expandPart = upto r.1 r.2 :=
+    fun r hr => expand_partsOfRun r (runs_le s r hr)
+  rw [flatMap_congr' _ _ _ this]
+  exact runs_cover s
+
+theorem runs_ne_nil (s : List Nat) (h : s ≠ []) : runs s ≠ [] := by
+  cases s with
+  | nil => exact absurd rfl h
+  | cons x xs => obtain ⟨b, rs, e, _⟩ := runs_cons_head x xs; simp [e]
+
+/-- the canonical text of a strictly ascending list is read back as that list -/
+theorem parse_renderRuns (s : List Nat) (h : s.Pairwise (· < ·)) :
+    parse (renderRuns (runs s)) = .ok s := by
+  cases s with
+  | nil => rfl
+  | cons x xs =>
+    rw [renderRuns_eq_renderParts, parse_renderParts, expand_parts_runs, sortedSet_of_sorted _ h]
+    obtain ⟨b, rs, e, _⟩ := runs_cons_head x xs
+    rw [e, List.flatMap_cons]
+    simp [partsOfRun_ne_nil]
 
 end Ccp.Range
